@@ -388,7 +388,7 @@ theorem Qt.runCmd (s : S Rat) (c : Cmd) (src pt : Int) : Qt cfg x0 s (runCmd cfg
   split
   · exact Qt.foldl _ (fun s t => Qt.heal s src t) _ _
   split
-  · exact Qt.hpPrim s _ _
+  · exact Qt.foldl _ (fun s t => Qt.hpPrim s t src) _ _
   split
   · qsame
   split
